@@ -71,4 +71,4 @@ def run(run, P):
         run.instance('R-FINDER-KEY', '%s: every returned %s belongs to the session it was asked for' % (name, T))
         solve(f, Env(), on_event, None, None, None,
               key_fn=lambda e: (tuple(sorted((k, v) for k, v in e.atoms.items() if S in k and '->session' in k)), tuple(e.nullf(v) for v in sorted(rvars))), max_envs=256)
-    run.require(n >= 2 or run.fixture_mode or run.cfg != 'base', 'R-FINDER-KEY: fewer than 2 per-session finder functions found (expected coap_find_observer, ...)')
+    run.require_count(n >= 2 or run.fixture_mode or run.cfg != 'base', 'R-FINDER-KEY: fewer than 2 per-session finder functions found (expected coap_find_observer, ...)')
